@@ -347,6 +347,17 @@ impl Core {
     }
 }
 
+/// Targeted "slow node" fault: the task that called `mark_current_task_slow` is scheduled only when nothing else can run
+/// (one simulated run at a time per process; reset at the start of every run).
+pub static LAGGARD: std::sync::atomic::AtomicUsize = std::sync::atomic::AtomicUsize::new(usize::MAX);
+
+pub fn mark_current_task_slow() {
+    if let Some(id) = shuttle::current::get_current_task() {
+        let id: usize = id.into();
+        LAGGARD.store(id, AO::SeqCst);
+    }
+}
+
 impl Scheduler for SimScheduler {
     fn new_execution(&mut self) -> Option<Schedule> {
         let mut c = self.core.lock().unwrap();
@@ -374,8 +385,18 @@ impl Scheduler for SimScheduler {
             c.stepcap = true;
             return None;
         }
+        c.max_runnable = c.max_runnable.max(runnable.len());
+        // the slow task is left out while anything else can run (choices are indices into the remaining set, so that a
+        // recorded schedule replays under the same rule)
+        let lag = LAGGARD.load(AO::SeqCst);
+        let filtered: Vec<TaskId>;
+        let runnable: &[TaskId] = if lag != usize::MAX && runnable.len() > 1 && runnable.iter().any(|t| { let id: usize = (*t).into(); id == lag }) {
+            filtered = runnable.iter().copied().filter(|t| { let id: usize = (*t).into(); id != lag }).collect();
+            &filtered
+        } else {
+            runnable
+        };
         let n = runnable.len();
-        c.max_runnable = c.max_runnable.max(n);
         let idx = if n == 1 {
             0
         } else {
@@ -560,6 +581,7 @@ where
         .stack_size(64 << 20)
         .spawn(move || {
             reseed_entropy(seed);
+            LAGGARD.store(usize::MAX, AO::SeqCst);
             FIRST_PANIC.with(|p| *p.borrow_mut() = None);
             let mut config = shuttle::Config::new();
             config.stack_size = stack;
